@@ -45,20 +45,24 @@ theorem getSess_of_mem {st : St} (h : SInv st) {t : Sess} (ht : t ∈ st.session
     obtain ⟨hu, e⟩ := getSess_some hg
     rw [sid_unique h hu ht e]
 
+theorem expired_iff (s : Sess) (T now : Nat) : s.expired T now = true ↔ (s.last + T ≤ now ∨ s.closed = true) := by
+  unfold Sess.expired; simp
+
 /-- the loop body either leaves the state as it is, or it found an idle session whose `last_rx_tx + session_timeout`
-    is not later than the `now` of the pass, and ran `SESSION_DEL; coap_session_free` on it -/
+    is not later than the `now` of the pass or whose connection is closed (`state == NONE`), and ran
+    `SESSION_DEL; coap_session_free` on it -/
 theorem reclaimStep_cases (st : St) (now sid : Nat) :
     st.reclaimStep now sid = st ∨
-    ∃ s, st.getSess sid = some s ∧ s.idle = true ∧ s.last + st.timeoutTicks ≤ now ∧
+    ∃ s, st.getSess sid = some s ∧ s.idle = true ∧ s.expired st.timeoutTicks now = true ∧
       st.reclaimStep now sid = st.reclaim sid := by
   unfold St.reclaimStep
   cases hg : st.getSess sid with
   | none => exact Or.inl rfl
   | some s =>
     dsimp only
-    by_cases c : (s.idle && decide (s.last + st.timeoutTicks ≤ now)) = true
+    by_cases c : (s.idle && s.expired st.timeoutTicks now) = true
     · rw [if_pos c]
-      simp only [Bool.and_eq_true, decide_eq_true_eq] at c
+      simp only [Bool.and_eq_true] at c
       exact Or.inr ⟨s, rfl, c.1, c.2, rfl⟩
     · rw [if_neg c]
       exact Or.inl (refRelease_id st sid)
@@ -108,10 +112,10 @@ theorem reclaimStep_sessions_sub (st : St) (now sid : Nat) :
   · rw [e]; intro u hu; exact hu
   · rw [e]; exact reclaim_sessions_sub st sid
 
-/-- ONE loop body keeps every session that is referenced, has a delayed message, or whose timeout has not expired at
-    the `now` of the pass -/
+/-- ONE loop body keeps every session that is referenced, has a delayed message, or whose connection is open and whose
+    timeout has not expired at the `now` of the pass -/
 theorem reclaimStep_keeps {st : St} (hS : SInv st) (now sid : Nat) {t : Sess} (ht : t ∈ st.sessions)
-    (hc : ¬ (t.idle = true ∧ t.last + st.timeoutTicks ≤ now)) : t ∈ (st.reclaimStep now sid).sessions := by
+    (hc : ¬ (t.idle = true ∧ t.expired st.timeoutTicks now = true)) : t ∈ (st.reclaimStep now sid).sessions := by
   rcases reclaimStep_cases st now sid with e | ⟨s, hg, hi, hl, e⟩
   · rw [e]; exact ht
   · rw [e]
@@ -122,12 +126,13 @@ theorem reclaimStep_keeps {st : St} (hS : SInv st) (now sid : Nat) {t : Sess} (h
     subst this
     exact hc ⟨hi, hl⟩
 
-/-- ONE loop body deletes the session it is called for if that session is idle and its timeout has expired -/
+/-- ONE loop body deletes the session it is called for if that session is idle and its timeout has expired or its
+    connection is closed -/
 theorem reclaimStep_deletes {st : St} (hS : SInv st) (now : Nat) {t : Sess} (ht : t ∈ st.sessions)
-    (hi : t.idle = true) (hl : t.last + st.timeoutTicks ≤ now) : t ∉ (st.reclaimStep now t.sid).sessions := by
+    (hi : t.idle = true) (hl : t.expired st.timeoutTicks now = true) : t ∉ (st.reclaimStep now t.sid).sessions := by
   have hg := getSess_of_mem hS ht
   have href : t.ref = 0 := by unfold Sess.idle at hi; simp at hi; exact hi.1
-  have hcond : (t.idle && decide (t.last + st.timeoutTicks ≤ now)) = true := by simp [hi, hl]
+  have hcond : (t.idle && t.expired st.timeoutTicks now) = true := by simp [hi, hl]
   unfold St.reclaimStep
   simp only [hg, hcond, if_true]
   unfold St.reclaim
@@ -153,7 +158,7 @@ theorem PassInv.inner {T : Nat} {E : List (Nat × Nat)} (now : Nat) (l : List Na
     PassInv T E (l.foldl (fun a sid => a.reclaimStep now sid) a) :=
   foldl_inv (PassInv T E) _ (fun _ sid hb => hb.step now sid) l a h
 
-theorem inner_keeps {T : Nat} {E : List (Nat × Nat)} (now : Nat) (t : Sess) (hc : ¬ (t.idle = true ∧ t.last + T ≤ now))
+theorem inner_keeps {T : Nat} {E : List (Nat × Nat)} (now : Nat) (t : Sess) (hc : ¬ (t.idle = true ∧ t.expired T now = true))
     (l : List Nat) {a : St} (h : PassInv T E a) (ht : t ∈ a.sessions) :
     t ∈ (l.foldl (fun a sid => a.reclaimStep now sid) a).sessions := by
   have := foldl_inv (fun b => PassInv T E b ∧ t ∈ b.sessions) (fun a sid => a.reclaimStep now sid)
@@ -168,10 +173,10 @@ theorem inner_sub (now : Nat) (l : List Nat) (a : St) :
     intro u hu
     exact reclaimStep_sessions_sub a now x u (ih _ u hu)
 
-/-- the whole reclamation loop keeps every session that is referenced, has a delayed message, or whose timeout has
-    not expired at the `now` of the pass -/
+/-- the whole reclamation loop keeps every session that is referenced, has a delayed message, or whose connection is
+    open and whose timeout has not expired at the `now` of the pass -/
 theorem reclaimPass_keeps {st : St} (hI : Inv st) (now : Nat) {t : Sess} (ht : t ∈ st.sessions)
-    (hc : ¬ (t.idle = true ∧ t.last + st.timeoutTicks ≤ now)) : t ∈ (st.reclaimPass now).sessions := by
+    (hc : ¬ (t.idle = true ∧ t.expired st.timeoutTicks now = true)) : t ∈ (st.reclaimPass now).sessions := by
   unfold St.reclaimPass
   have := foldl_inv (fun b => PassInv st.timeoutTicks st.eps b ∧ t ∈ b.sessions)
     (fun acc (ep : Nat × Nat) => ((acc.epSessions ep.1 ep.2).map (·.sid)).foldl (fun a sid => a.reclaimStep now sid) acc)
@@ -205,7 +210,7 @@ theorem foldl_hits {α β : Type} (P R : α → Prop) (f : α → β → α) (hP
       · exact absurd h1.symm e
       · exact ih (f a y) h1 (hP a y ha)
 
-theorem inner_deletes {T : Nat} {E : List (Nat × Nat)} (now : Nat) (t : Sess) (hi : t.idle = true) (hl : t.last + T ≤ now)
+theorem inner_deletes {T : Nat} {E : List (Nat × Nat)} (now : Nat) (t : Sess) (hi : t.idle = true) (hl : t.expired T now = true)
     (l : List Nat) (hm : t.sid ∈ l) {a : St} (h : PassInv T E a) :
     t ∉ (l.foldl (fun a sid => a.reclaimStep now sid) a).sessions := by
   refine foldl_hits (PassInv T E) (fun b => t ∉ b.sessions) (fun a sid => a.reclaimStep now sid)
@@ -217,9 +222,10 @@ theorem inner_deletes {T : Nat} {E : List (Nat × Nat)} (now : Nat) (t : Sess) (
     · exact reclaimStep_deletes hb.inv.S now hin hi (by rw [hb.tt]; exact hl)
     · intro hu; exact hin (reclaimStep_sessions_sub b now t.sid t hu)
 
-/-- the whole reclamation loop leaves no idle session whose timeout has expired at the `now` of the pass -/
+/-- the whole reclamation loop leaves no idle session whose timeout has expired at the `now` of the pass or whose
+    connection is closed -/
 theorem reclaimPass_deletes {st : St} (hI : Inv st) (now : Nat) :
-    ∀ t ∈ (st.reclaimPass now).sessions, ¬ (t.idle = true ∧ t.last + st.timeoutTicks ≤ now) := by
+    ∀ t ∈ (st.reclaimPass now).sessions, ¬ (t.idle = true ∧ t.expired st.timeoutTicks now = true) := by
   intro t htf ⟨hi, hl⟩
   have ht0 : t ∈ st.sessions := reclaimPass_sub st now t htf
   have hep : (t.peer.lport, t.peer.proto) ∈ st.eps := hI.S.ep t ht0
